@@ -313,36 +313,36 @@ func c15d(c *Ctx) {
 			c.Check(ok, fmt.Sprintf("ParseProgram/Text#%d.IsGlobal", i), c.W.Pos(a.Pos()), "IsGlobal = "+got, "explicit text IsGlobal is "+got+", expected (<text statement>.Scope == GLOBAL)")
 		}
 	}
-	// (5) labels inside scripts
+	// (5) labels inside scripts (the node may be built in place or by a constructor helper)
 	if fn := c.Fn("parser.Parser.tryParseLabelStatement"); fn != nil {
-		as := allocsOf(fn, "ast", "LabelStatement")
 		seen := map[string]bool{}
-		for i, a := range as {
-			var ret *ssa.Return
-			for _, r := range returnsOf(fn) {
-				if len(r.Results) == 1 && r.Results[0] == ssa.Value(a) {
-					ret = r
-				}
-			}
-			if ret == nil {
-				c.Bad(fmt.Sprintf("tryParseLabelStatement/label#%d", i), c.W.Pos(a.Pos()), "label node is not returned")
+		for i, r := range returnsOf(fn) {
+			if len(r.Results) != 1 || isNilConst(r.Results[0]) {
 				continue
 			}
-			got := c.fieldAtUse(fn, a, "IsGlobal", ret)
-			cond := c.canonDNF(fn, a.Block())
+			def, ok := unwrapIface(r.Results[0]).(ssa.Instruction)
+			f := c.valueFields(fn, r.Results[0], r)
+			if !ok || f == nil {
+				c.Bad(fmt.Sprintf("tryParseLabelStatement/label#%d", i), c.W.Pos(r.Pos()), "returned label is neither a composite literal nor the result of a constructor helper")
+				continue
+			}
+			got := f["IsGlobal"]
+			blk := def.Block()
+			cond := c.canonDNF(fn, blk)
+			pos := c.W.Pos(def.Pos())
 			switch {
 			case strings.Contains(cond, `+($0.peekToken.Type == ":")`):
-				c.Check(got == "false" || got == "zero", "tryParseLabelStatement/plain-label", c.W.Pos(a.Pos()), "'name:' is local", "'name:' label has IsGlobal = "+got)
+				c.Check(got == "false" || got == "zero", "tryParseLabelStatement/plain-label", pos, "'name:' is local", "'name:' label has IsGlobal = "+got)
 				seen["plain"] = true
 			case strings.Contains(cond, `+($0.peekToken.Type == "(")`):
-				must := c.mustLits(fn, a.Block())
+				must := c.mustLits(fn, blk)
 				shape := hasLit(must, `+($0.peekToken.Type == "(")`) && hasLit(must, `+($0.peek3Token.Type == ")")`) && hasLit(must, `+($0.peek4Token.Type == ":")`) &&
-					c.everyConjHasOneOf(fn, a.Block(), `+($0.peek2Token.Type == "GLOBAL")`, `+($0.peek2Token.Type == "LOCAL")`)
-				c.Check(shape, "tryParseLabelStatement/scoped-label-shape", c.W.Pos(a.Pos()), "a scoped label is exactly  name ( global|local ) :", "a scoped label is recognised without all of '(' , global|local , ')' and ':' being tested: a command such as name(local) could be taken for a label")
-				c.Check(got == `($0.peek2Token.Type == "GLOBAL")`, "tryParseLabelStatement/scoped-label", c.W.Pos(a.Pos()), "'name(scope):' is global iff the written modifier is GLOBAL", "'name(scope):' label has IsGlobal = "+got+", expected ($0.peek2Token.Type == \"GLOBAL\") evaluated at the label name")
+					c.everyConjHasOneOf(fn, blk, `+($0.peek2Token.Type == "GLOBAL")`, `+($0.peek2Token.Type == "LOCAL")`)
+				c.Check(shape, "tryParseLabelStatement/scoped-label-shape", pos, "a scoped label is exactly  name ( global|local ) :", "a scoped label is recognised without all of '(' , global|local , ')' and ':' being tested: a command such as name(local) could be taken for a label")
+				c.Check(got == `($0.peek2Token.Type == "GLOBAL")`, "tryParseLabelStatement/scoped-label", pos, "'name(scope):' is global iff the written modifier is GLOBAL", "'name(scope):' label has IsGlobal = "+got+", expected ($0.peek2Token.Type == \"GLOBAL\") evaluated at the label name")
 				seen["scoped"] = true
 			default:
-				c.Bad(fmt.Sprintf("tryParseLabelStatement/label#%d", i), c.W.Pos(a.Pos()), "label built under an unexpected condition "+cond)
+				c.Bad(fmt.Sprintf("tryParseLabelStatement/label#%d", i), pos, "label built under an unexpected condition "+cond)
 			}
 		}
 		if !seen["plain"] || !seen["scoped"] {
